@@ -120,6 +120,31 @@ def inputs_lit(toks):
     return f"lit {len(toks)} " + ' '.join(str(t) for t in toks)
 
 
+
+def shelter_family():
+    """(wrapped, plain) pairs for the wrappers that shelter the pending error (labelled, map_err, memoized, try_map):
+    an earlier alternative has left a pending error at p1; the wrapped parser SUCCEEDS or FAILS having probed further (its own
+    deepest failure at p2 > p1) and ends with the cursor behind p1 (optional tail / repetition / inner choice gave the input
+    back). What the wrapper re-inserts must be ranked at p2, against what is pending — not against where the cursor is."""
+    C, D = 99, 100
+    firsts = [('then', ('just', [A, B]), ('just', [120])), ('then', ('just', [A]), ('then', ('just', [B]), ('just', [B]))),
+              ('then', ('just', [A, B, C]), ('just', [120]))]
+    inners = [('then', ('just', [A]), ('ornot', ('just', [B, C, D, EA]))),
+              ('then', ('just', [A]), ('collect', 'vec', ('rep', ('just', [B, C]), 0, None))),
+              ('then', ('just', [A]), ('or', ('just', [B, C, D]), ('empty',))),
+              ('then', ('any',), ('ornot', ('then', ('just', [B]), ('then', ('just', [C]), ('just', [C]))))),
+              ('then', ('just', [A]), ('ornot', ('then', ('just', [B]), ('ornot', ('just', [C, D, D])))))]
+    wraps = [lambda a: ('label', 3, False, a), lambda a: ('label', 3, True, a), lambda a: ('maperr', 4, a),
+             lambda a: ('memo', 1, a), lambda a: ('trymap', 'never', 4, 2, a), lambda a: ('boxed', a)]
+    out = []
+    for f in firsts:
+        for i in inners:
+            for w in wraps:
+                for shape in (lambda x, y: ('theni', ('or', x, y), ('end',)), lambda x, y: ('theni', ('choices', [x, y]), ('end',)),
+                              lambda x, y: ('then', ('or', x, y), ('just', [C])), lambda x, y: ('theni', ('or', y, x), ('end',))):
+                    out.append((shape(f, w(i)), shape(f, i)))
+    return out
+
 # ---------------------------------------------------------------------------------------------
 # enumeration by size
 
